@@ -207,8 +207,13 @@ class TransformKey:
         if isinstance(other, TransformKey):
             return self.src == other.src and self.dst == other.dst
         elif isinstance(other, (tuple, list)):
-            other_src, other_dst = other
-            return self.src == other_src and self.dst == other_dst
+            if len(other) != 2:
+                return False
+            try:
+                other_key = TransformKey(*other)
+            except ValueError:
+                return False
+            return self.src == other_key.src and self.dst == other_key.dst
         else:
             return False
 
